@@ -66,6 +66,26 @@ Theorem C17_setstat_stops_at_failure : forall ops fails,
 Proof. exact run_until_fail_prefix. Qed.
 Print Assumptions C17_setstat_stops_at_failure.
 
+(* owner and group: an entry that implements FileInfoUidGid is reported with the ids it gives (whatever a host Stat_t behind
+   Sys() says), one that only has a Stat_t with the Stat_t's, and in both cases the attribute block announces them; the
+   owner and group columns of the long name are the ones in the attribute block (entries whose Sys() is nil or a Stat_t) *)
+Theorem C17_owner_from_interface : forall hs stat_ids iface_ids, fileStat_owner hs true stat_ids iface_ids = iface_ids.
+Proof. exact owner_from_interface. Qed.
+Print Assumptions C17_owner_from_interface.
+
+Theorem C17_owner_from_stat_t : forall stat_ids iface_ids, fileStat_owner true false stat_ids iface_ids = stat_ids.
+Proof. exact owner_from_stat_t. Qed.
+Print Assumptions C17_owner_from_stat_t.
+
+Theorem C17_owner_flag_set : forall hs hi n he, (hs || hi = true)%bool -> has (fileStat_flags hs hi n he) fl_uidgid = true.
+Proof. exact owner_flag_set. Qed.
+Print Assumptions C17_owner_flag_set.
+
+Theorem C17_longname_owner_agrees : forall hs hi stat_ids iface_ids,
+  ls_owner hs hi stat_ids iface_ids = fileStat_owner hs hi stat_ids iface_ids.
+Proof. exact longname_owner_agrees. Qed.
+Print Assumptions C17_longname_owner_agrees.
+
 (* non-vacuity: a setgid directory 02755 and a sticky world-writable directory *)
 Example C17_nonvacuous :
   toFileMode 17901 = N.lor o_dir (N.lor o_setgid 493) /\ fromFileMode (N.lor o_dir (N.lor o_setgid 493)) = 17901 /\
